@@ -85,8 +85,33 @@ ENV_PROFILES = [
     ("default", [], {}),
     ("c-locale", [], {"LC_ALL": "C", "LANG": "C", "LANGUAGE": "C", "PYTHONUTF8": "0", "PYTHONCOERCECLOCALE": "0", "PYTHONIOENCODING": ""}),
     ("optimised-warnings-ignored", ["-O"], {"PYTHONWARNINGS": "ignore"}),
-    ("elsewhere", [], {"VMON_CHDIR": "1", "VMON_PREIMPORT": "json,decimal,numpy,pandas,graphviz,particle,lark", "TZ": "Pacific/Kiritimati"}),
+    ("elsewhere", [], {"VMON_CHDIR": "1", "VMON_PREIMPORT": "json,decimal,numpy,pandas,graphviz,particle,lark", "TZ": "Pacific/Kiritimati", "COLUMNS": "60", "LINES": "20"}),
 ]
+
+
+def poke(obj, rng, k: int = 3) -> list:
+    """Things a user does with a library object in passing -- hash it, compare it, print it, copy it, pickle it, measure it.  None of them may
+    change a later answer.  Whether each of them *works* is not what any property is about, so their own exceptions are swallowed; the names of the
+    operations performed are returned for the witness."""
+    import copy  # noqa: PLC0415
+    import pickle  # noqa: PLC0415
+
+    ops = {
+        "hash": lambda o: hash(o), "eq-self": lambda o: o == o, "ne-other": lambda o: o != object(), "in-list": lambda o: o in [None, o],
+        "in-set": lambda o: o in {o}, "dict-key": lambda o: {o: 1}[o], "repr": lambda o: repr(o), "str": lambda o: str(o), "bool": lambda o: bool(o), "len": lambda o: len(o),
+        "iter": lambda o: list(iter(o)), "copy": lambda o: copy.copy(o), "deepcopy": lambda o: copy.deepcopy(o),
+        "pickle": lambda o: pickle.loads(pickle.dumps(o)), "dir": lambda o: [getattr(o, a, None) for a in dir(o) if not a.startswith("_") and not callable(getattr(type(o), a, None))],
+        "format": lambda o: f"{o}", "sorted-with-peers": lambda o: sorted([o, o], key=repr),
+    }
+    done = []
+    for name in rng.sample(sorted(ops), min(k, len(ops))):
+        try:
+            ops[name](obj)
+        except BaseException as e:  # noqa: BLE001
+            if isinstance(e, (KeyboardInterrupt, SystemExit)) or type(e).__name__ == "Diverged":
+                raise
+        done.append(name)
+    return done
 
 
 def child_env() -> dict:
